@@ -382,6 +382,11 @@ func coqPres(h *History, rs []Res, ord map[int]int, p Pres) string {
 			seg = p.Seg % 3
 		}
 		return fmt.Sprintf("(PFlip %s %s %s)", hx.CoqNat(k), acc, hx.CoqNat(seg))
+	case "cutsig":
+		if p.Which == "refresh" {
+			return fmt.Sprintf("(PFlip %s false 0%%nat)", hx.CoqNat(k))
+		}
+		return fmt.Sprintf("(PFlip %s true 2%%nat)", hx.CoqNat(k))
 	case "resign":
 		if p.Which == "refresh" {
 			return "(PGarbage 3)"
@@ -525,7 +530,8 @@ func genPres(r *hx.Rng, issuers []int, malformedPct int) Pres {
 			p.Role = hx.Pick(r, []string{"", "admin"})
 			p.ExpAdd = hx.Pick(r, []int64{0, 100000})
 		case 4:
-			p.Mut = "trunc"
+			p.Mut = hx.Pick(r, []string{"trunc", "cutsig"})
+			p.Pos = hx.Pick(r, []int{0, 1, 20, 42})
 		case 5:
 			p.Mut = "extra"
 		case 6:
@@ -618,6 +624,9 @@ func corpus() []*History {
 				g.Ops = append(g.Ops, Op{Op: "validate", Tok: Pres{Base: 1, Which: "access", Mut: "flip", Seg: seg, Pos: pos, Bit: bit}})
 			}
 		}
+	}
+	for _, pos := range []int{0, 1, 21, 42} {
+		g.Ops = append(g.Ops, Op{Op: "validate", Tok: Pres{Base: 1, Which: "access", Mut: "cutsig", Pos: pos}})
 	}
 	for _, m := range []string{"trunc", "extra", "garbage", "empty"} {
 		g.Ops = append(g.Ops, v(1, "access", m), v(1, "refresh", m), Op{Op: "refresh", Tok: Pres{Base: 1, Which: "refresh", Mut: m}})
